@@ -6,7 +6,7 @@ use s3s::crypto::Checksum;
 use s3s::crypto::Md5;
 use s3s::dto;
 use s3s::dto::PartNumber;
-use s3s::{S3Result, s3_error};
+use s3s::{S3Error, S3Result, s3_error};
 
 use std::env;
 use std::ops::Not;
@@ -94,6 +94,16 @@ impl FileSystem {
             _ => return Err(s3_error!(InvalidBucketName)),
         }
         Ok(self.resolve_abs_path(dir)?)
+    }
+
+    /// the error for an object that was not found:
+    /// `NoSuchBucket` if its bucket does not exist, `NoSuchKey` otherwise
+    pub(crate) fn not_found_error(&self, bucket: &str) -> S3Error {
+        match self.get_bucket_path(bucket) {
+            Ok(path) if path.exists() => s3_error!(NoSuchKey),
+            Ok(_) => s3_error!(NoSuchBucket),
+            Err(err) => err,
+        }
     }
 
     /// resolve metadata path under the virtual root (custom format)
